@@ -195,6 +195,10 @@ func (s *Spec) Ops(st *explore.State) []explore.Op {
 				ops = append(ops, s.msgOp("AddDelegate("+tag+")", func(sdk.Context) sdk.Msg {
 					return &cctypes.MsgAddDelegate{ChainName: ch, OracleAddress: o.Acct.Bech(), Amount: cctypes.NewDelegateAmount(world.FX(9000))}
 				}))
+				// the smallest top-up that changes the oracle's power (one power unit): the oracle set drifts by a fraction of a percent
+				ops = append(ops, s.msgOp("AddDelegate("+tag+",one-power-unit)", func(sdk.Context) sdk.Msg {
+					return &cctypes.MsgAddDelegate{ChainName: ch, OracleAddress: o.Acct.Bech(), Amount: cctypes.NewDelegateAmount(world.FX(100))}
+				}))
 			}
 		}
 	}
@@ -359,7 +363,9 @@ func (s *Spec) govOps(st *explore.State) []explore.Op {
 		for id := uint64(1); id < n; id++ {
 			id := id
 			if p, err := gk.Proposals.Get(ctx, id); err == nil && (p.Status == govv1.StatusVotingPeriod || p.Status == govv1.StatusDepositPeriod) {
-				ops = append(ops, s.msgOp(fmt.Sprintf("GovCancel(%d)", id), func(sdk.Context) sdk.Msg { return &govv1.MsgCancelProposal{ProposalId: id, Proposer: s.w.A("u1").Bech()} }))
+				ops = append(ops, s.msgOp(fmt.Sprintf("GovCancel(%d)", id), func(sdk.Context) sdk.Msg {
+					return &govv1.MsgCancelProposal{ProposalId: id, Proposer: s.w.A("u1").Bech()}
+				}))
 			}
 		}
 		ops = append(ops, s.blockOp("Jump1d", 24*time.Hour+time.Minute), s.blockOp("Jump15d", 15*24*time.Hour))
